@@ -307,7 +307,7 @@ struct Exec {
       // (fixed finding C06-KF11: vector-container RU: an insertion that follows a vine swap and a removal was mis-reduced)
       if (had_swap && had_removal) { r.count("probe.ru_vector_insert_after_swap_and_removal"); }
     }
-    if constexpr (FAM == CHAIN && VINE) { if (had_swap) { r.count("probe.chain_insert_after_swap"); if (r.kf("C06-KF6")) { obs.tainted = true; r.skipped(); return; } } }
+    if constexpr (FAM == CHAIN && VINE) { if (had_swap) { r.count("probe.chain_insert_after_swap"); if (!BARCODE && r.kf("C06-KF6")) { obs.tainted = true; r.skipped(); return; } } }
     int c = can[op.arg(0) % can.size()];
     bool custom = p.geti("custom_ids", 1) != 0 || !default_ids_ok;
     // identifiers must stay strictly above every identifier in use (for boundary-type matrices: every row identifier, which stay with the positions)
